@@ -3,4 +3,4 @@ From CMI Require Import Cxx.C18_Dec Cxx.C18_Gen Cxx.C18_Defs.
 Extraction "c18_model.ml" fops dec2f dec2f_slow all_ions
   findA findB findC prep_A prep_B resolve prep_sel xsec_prepped prep_ion xsec_ion_prepped all_A_keys all_B_keys all_C_keys
   tab3 tab2 gen_rrec gen_rnew gen_fe inv_nz rr_kind rr_prep rr_eval rec_prep rec_prepped
-  ct_rate locate_in sample_linear sample_planck sample_lyman gen_lyman_clamps strictly_increasing weakly_increasing.
+  ct_rate locate_in sample_linear sample_planck sample_lyman gen_lyman_clamps strictly_increasing weakly_increasing masked_cdf.
